@@ -47,7 +47,7 @@ CLAIMED.update({
     "C19": _ch("C19", "the fault kind of every exchange (13-symbol alphabet) and the per-call tokens; sequences <= 2/3", "DESIGN.md 3/C19",
                "Trusted: CrossHair, z3, the scripted in-memory socket (blocking-stream model, documented OSError subclasses), token codec stub; CPython's http.client and xmlrpc.client are executed for real, not modelled."),
     "C20": _ch("C20", "field values; ignore-list subsets, handler tables, configured names, positions", "DESIGN.md 3/C20"),
-    "C13": _ch("C13", "ids, parameters, mutated Config values; request pairs and Config mutations", "DESIGN.md 3/C13"),
+    "C13": _ch("C13", "ids, parameters, mutated Config values; request pairs and Config mutations; Config snapshots before, after and while the callables run", "DESIGN.md 3/C13"),
     "C14": _ch("C14", "rpcid, method text, parameter leaves, Fault fields", "DESIGN.md 3/C14"),
     "C15": _ch("C15", "every primitive leaf as Union[None,bool,int,float,str]; container nestings depth<=2/3", "DESIGN.md 3/C15"),
 })
@@ -64,7 +64,7 @@ def _ts(what, ref):
 
 
 CLAIMED.update({
-    "C09": _ts("client programs over {start, enqueue (returning / raising tasks), wait for result, stop, restart} cut into windows at every operation, pool sizes max 1-2 (3 thorough), min 0..max, one or two clients", "DESIGN.md 3/C09"),
+    "C09": _ts("client programs over {start, enqueue (returning / raising tasks), wait for result, stop, restart} cut into windows at every operation, pool sizes max 1-2 (3 thorough), min 0..max, one or two clients, at most one failing Thread.start() where a scenario enables it", "DESIGN.md 3/C09"),
     "C10": dict(_ts("windows over programs with mutually dependent (gate-blocked) tasks, more work than workers, Thread.start() failures, tasks queued before start(); pool sizes max 1-2 (3 thorough), min 0..max", "DESIGN.md 3/C10"),
                 technique="CrossHair on ThreadPool.__init__ (argument validation / clamping, all ints) + " + TS, engine="TS+CH"),
     "C11": _ts("lifecycle programs over {start, stop, enqueue, join, join(timeout), wait} up to 10 operations with instantaneous, failing and gate-blocked tasks and a second client, windows at every operation", "DESIGN.md 3/C11"),
